@@ -56,6 +56,11 @@ def check_expr(ctx, ast, alphabet, rnd, exhaustive):
         ctx.violation("rejected-wellformed", "Schema() raised %s: %s for the well-formed expression %r" % (type(S).__name__, S, expr), det,
                       {"exc": type(S).__name__})
         return
+    if "x" in rs.strong_dead_ends:
+        ctx.count("expressions_dead_end_behind_loop")
+        ctx.violation("accepted-dead-end", "Schema() accepted %r although a required position in it can only be filled by non-generatable nodes "
+                      "(every path to a valid end from some reachable state needs a text node or a node with required attributes)" % expr,
+                      det, {"immediate_edge_check_passes": True})
     ctx.count("expressions_wellformed")
     if ctx.counters["expressions_wellformed"] % 500 == 1:
         ctx.sample(det)
